@@ -230,7 +230,6 @@ class Engine:
         np.seterr(all="ignore")
         import warnings
         warnings.simplefilter("ignore")
-        self._rep_defaults = representation.Representation.__init__.__defaults__
         from .core import library_guard
         self.guard = library_guard()
 
@@ -265,9 +264,6 @@ class Engine:
         return cfg
 
     def new_world(self, cfg, prop):
-        r = self.representation.Representation
-        if r.__init__.__defaults__ != self._rep_defaults or r.__init__.__defaults__[1] != []:
-            r.__init__.__defaults__ = (None, [], None, None, None, None, 'float64')
         self.guard.restore()
         return World(cfg, prop)
 
